@@ -35,7 +35,8 @@ def check_asm(c):
     Cm = sps.csc_matrix(rng.integers(-2, 3, (n, n)) * (rng.random((n, n)) < 0.15)).astype(float)
     # how the constrained dofs are given: sorted array with explicit diagonal value, reversed python list, default diagonal value
     bcforms = [("array", lambda: np.array(bc), float(c["dv"])), ("list-reversed", lambda: list(reversed(bc)), float(c["dv"])),
-               ("default-diagonal", lambda: np.array(bc), None)] if bc else [("none", None, None)]
+               ("default-diagonal", lambda: np.array(bc), None)] + (
+        [("integer-diagonal", lambda: np.array(bc), int(float(c["dv"])))] if float(c["dv"]) == int(float(c["dv"])) else []) if bc else [("none", None, None)]
     for mt, (bcname, bcval, dv) in [(a, b) for a in (sps.csc_matrix, sps.csr_matrix) for b in bcforms]:
         for const in (None, Cm):
             kw = dict(matrix_type=mt)
@@ -71,7 +72,7 @@ def check_asm(c):
                     bad = np.argwhere(A != cols[e] + add)[0]
                     return "unit-scaling", "grid %s ndof %d bc %s %s: A(e_%d)[%d,%d] = %s, specification %s" % (
                         c["g"], c["ndof"], bc, mt.__name__, e, bad[0], bad[1], A[bad[0], bad[1]], (cols[e] + add)[bad[0], bad[1]])
-            x = rng.integers(0, 4, dom.nel).astype(float)
+            x = rng.integers(0, 9, dom.nel) / 4.0          # dyadic fractions: every product with the integer element matrix is exact
             s.state = x
             A = get()
             exp = A0 + sum(x[e] * (cols[e] - A0) for e in range(dom.nel)) + add
